@@ -70,6 +70,9 @@ CHECKS['C10'] = dict(engine=SYMX, technique='bounded symbolic execution of the r
 CHECKS['C13'] = dict(engine='E2-symx + deterministic scheduler', technique='schedules and histories as sequences of symbolic integers enumerated exhaustively by the explorer (z3 decides feasibility), each executed on the real code by a deterministic thread scheduler (sys.settrace line granularity); replay of the schedule',
    text='2 (quick) / 3 (thorough) real threads each compile and evaluate a distinct filter with its own literals through the real Grid.filter; every thread is stopped at each source line of filter_function/_filter_function/_FnWrapper and the next thread to run is a symbolic integer: all interleavings with <=2 (quick) / <=3 preemptions are explored, also with a capacity-2 cache so that evictions and finalisers interleave with compilations. Histories: all sequences of 5-7 evaluations over 3-4 filters with a cache of 2-3 entries (through Grid.filter or previously obtained functions), and one concrete history of 1500 distinct filters around the real capacity with a hot filter and held functions. Every thread/step must return exactly its own filter\'s rows.',
    note='Scheduling granularity is the source line of the compile step; lru_cache itself assumed thread safe; capacity reduced by re-creating the cache in the eviction scenarios.', ref='5 C13')
+CHECKS['C17'] = dict(engine='E3-z3 tables + exhaustive validation', technique='z3 queries over the live zone-name maps and pytz transition tables (bijection, offset form), then exhaustive execution of every tabulated (zone, transition, delta, microsecond) and (fixed offset, local time) through the real writers and readers; replay',
+   text='The name<->zone maps and the transition tables of all mapped zones are read from the live objects. z3 decides: the maps are mutually inverse and one-to-one (4 queries over the maps as functions), and no tabulated offset needs a form the readers cannot parse (one query per zone). Because what remains is library calendar arithmetic, the table is not abstracted further but validated exhaustively against the implementation: every tabulated transition instant of every zone +-{0,1 s,30 min} (thorough: more deltas) x microseconds, in both formats, must keep instant, UTC offset and Haystack zone name; and for fixed-offset tzinfo (whole-minute offsets -14h..+14h at ordinary, skipped and ambiguous local times) the writer must name a zone with that offset at that instant or raise ValueError, never another exception, never change the instant.',
+   note='pytz/datetime/iso8601 arithmetic is exercised, not re-derived; the grammar part of the date-time text (T/Z case, fraction digits, zone-name syntax) is decided symbolically by C03/C05/C07; instants outside years 2..9998 excluded.', ref='5 C17')
 NA_REASON = {}
 
 def main():
